@@ -312,7 +312,7 @@ func (c *checker) complete() {
 		sort.Strings(names)
 		for _, n := range names {
 			obj := scope.Lookup(n)
-			q := rel + "." + n
+			q := rel + "." + load.ObjSimpleName(obj)
 			switch o := obj.(type) {
 			case *types.Var:
 				if !reachesArith(o.Type(), core, map[types.Type]bool{}) {
